@@ -28,7 +28,7 @@ import (
 func init() {
 	engine.Register(&engine.Check{
 		ID: "C12", Name: "readonly-concurrent", Level: "model_checking",
-		Rule: "(b) for each of 8 scenarios (2-3 goroutines, one operation each, on a shared value or on independent documents): every schedule with at most k preemptions over the yield points of the instrumented " +
+		Rule: "(b) for each of 10 scenarios (2-3 goroutines, one operation each, on a shared value or on independent documents): every schedule with at most k preemptions over the yield points of the instrumented " +
 			"library (every function entry, function literal and loop body), by iterative preemption-bounded DFS; per execution: every thread's result equals the sequential result, the shared values' and the " +
 			"package-level variables' deep snapshot is unchanged at the end (for <=1 preemption additionally at every yield point), no panic; states = distinct (scenario, schedule) executions; " +
 			"(a) every read-only operation x every universe value: deep snapshot before == after, results of an earlier call unchanged by a later one; (c) 8 goroutines x 50 rounds x 3 of every scenario under the race detector",
@@ -87,7 +87,7 @@ func c12Race(p *engine.Parent) error {
 	if b, err := cmd.CombinedOutput(); err != nil {
 		return fmt.Errorf("race build failed: %v\n%s", err, b)
 	}
-	run := exec.Command(out)
+	run := exec.Command(out, p.Tier)
 	run.Env = append(os.Environ(), "GORACE=halt_on_error=1 exitcode=66")
 	var buf bytes.Buffer
 	run.Stdout, run.Stderr = &buf, &buf
@@ -100,7 +100,7 @@ func c12Race(p *engine.Parent) error {
 		if m := c12RaceFrame.FindStringSubmatch(text); m != nil {
 			fn = m[1]
 		}
-		p.AddFailure(engine.Failure{Key: "C12|race|data-race|" + fn, Class: "C12|race", Case: "free-running scenarios under the race detector (8 goroutines x 50 rounds)",
+		p.AddFailure(engine.Failure{Key: "C12|race|data-race|" + fn, Class: "C12|race", Case: "free-running scenarios under the race detector (quick: 16 goroutines x 25 rounds; thorough: 3 x 32 goroutines x 40 rounds)",
 			Detail: firstN(text, 3000)})
 	case strings.Contains(text, "RESULT-MISMATCH"):
 		p.AddFailure(engine.Failure{Key: "C12|race|result-differs-from-sequential", Class: "C12|race", Case: "free-running scenarios", Detail: firstN(text, 2000)})
